@@ -69,3 +69,17 @@ pub fn denull(v: serde_json::Value) -> serde_json::Value {
         x => x,
     }
 }
+
+
+/// Is the machine busy enough for a slow child to be mistaken for a hang?  (1-minute load above
+/// half the cores, or more runnable tasks than cores right now.)
+pub fn machine_loaded() -> bool {
+    let ncpu = std::thread::available_parallelism().map(|n| n.get()).unwrap_or(4) as f64;
+    if let Ok(s) = std::fs::read_to_string("/proc/loadavg") {
+        let f: Vec<&str> = s.split_whitespace().collect();
+        let l1 = f.first().and_then(|x| x.parse::<f64>().ok()).unwrap_or(0.0);
+        let running = f.get(3).and_then(|x| x.split('/').next()).and_then(|x| x.parse::<f64>().ok()).unwrap_or(0.0);
+        return l1 > 0.5 * ncpu || running > ncpu;
+    }
+    true
+}
